@@ -359,6 +359,44 @@ def memo(ctx, R, py, modules):
         for f in m.funcs.values():
             fns.append(f)
             fns += [x for x in ast.walk(f) if isinstance(x, ast.FunctionDef) and x is not f]
+        # module-level names (tables, constants): read-only for every function
+        glob = set()
+        for st in m.tree.body:
+            tg = st.targets if isinstance(st, ast.Assign) else [st.target] if isinstance(st, (ast.AnnAssign, ast.AugAssign)) else []
+            for t in tg:
+                glob |= {x.id for x in ast.walk(t) if isinstance(x, ast.Name)}
+        for f in fns:
+            if not glob:
+                break
+            declared = set()
+            for x in ast.walk(f):
+                if isinstance(x, ast.Global):
+                    declared |= set(x.names)
+            local = set(pyfe.params(f)) | {a.arg for a in ast.walk(f.args) if isinstance(a, ast.arg)}
+            for x in ast.walk(f):
+                if isinstance(x, ast.Name) and isinstance(x.ctx, ast.Store) and x.id not in declared:
+                    local.add(x.id)
+            wr = []
+            for x in ast.walk(f):
+                tg = x.targets if isinstance(x, ast.Assign) else [x.target] if isinstance(x, (ast.AugAssign, ast.AnnAssign)) else \
+                    x.targets if isinstance(x, ast.Delete) else []
+                for t in tg:
+                    b = t
+                    while isinstance(b, (ast.Attribute, ast.Subscript)):
+                        b = b.value
+                    if isinstance(b, ast.Name) and b.id in glob and b.id not in local and (t is not b or b.id in declared):
+                        wr.append((x, b.id))
+                if isinstance(x, ast.Call) and isinstance(x.func, ast.Attribute) and isinstance(x.func.value, ast.Name) and \
+                        x.func.value.id in glob and x.func.value.id not in local and \
+                        x.func.attr in ("append", "add", "update", "setdefault", "extend", "insert", "pop", "popitem", "clear",
+                                        "remove", "discard", "sort", "reverse", "fill", "put", "resize"):
+                    wr.append((x, x.func.value.id))
+            q = getattr(f, "_qual", mn + "." + f.name)
+            n += 1
+            ctx.check(not wr, R, wr[0][0] if wr else f, q, "%s writes no module-level object" % f.name if not wr else
+                      pyfe.src(wr[0][0])[:70], "", "`%s` stores into the module-level object `%s`: what the function returns then "
+                      "depends on the calls made earlier in the process (another model, another script, the same labels with "
+                      "other content)" % (f.name, wr[0][1] if wr else ""), nontrivial=False)
         for f in fns:
             n += 1
             decs = [pyfe.src(d) for d in f.decorator_list]
